@@ -60,6 +60,23 @@ func genProgram(r *core.Rand, g, n int, mode string) []*cop {
 			}
 			return "g" + strconv.Itoa(g) + "i" + strconv.Itoa(r.Intn(3))
 		}
+		if mode == "hammer" {
+			// bodiless calls back to back on four shared IDs, export-and-reset heavy: the calls
+			// are short, so what overlaps is the critical sections themselves
+			o.id = "h" + strconv.Itoa(r.Intn(4))
+			switch {
+			case x < 34:
+				o.kind = "req"
+			case x < 62:
+				o.kind = "res"
+			case x < 90:
+				o.kind = "xreset"
+			default:
+				o.kind = "export"
+			}
+			prog = append(prog, o)
+			continue
+		}
 		switch {
 		case x < 36:
 			o.kind, o.id = "req", pick()
@@ -414,7 +431,13 @@ func dumpHistory(progs [][]*cop) string {
 	return s
 }
 
-// runConc: args = seed, goroutines, ops per goroutine, mode (own | shared | reset | storm).
+// concBound: wall-clock bound of one concurrent run (generous: a run takes milliseconds; the
+// per-op watchdog of the runner is 30 s).
+const concBound = 20 * time.Second
+
+var concHangs int
+
+// runConc: args = seed, goroutines, ops per goroutine, mode (own | shared | reset | storm | hammer).
 func runConc(a []string) core.Result {
 	seed, _ := strconv.ParseUint(a[0], 10, 64)
 	G, _ := strconv.Atoi(a[1])
@@ -422,6 +445,12 @@ func runConc(a []string) core.Result {
 	mode := a[3]
 	if G < 1 || G > 64 || N < 1 || N > 200 {
 		return core.Result{Impl: "bad-op", SkipModel: true}
+	}
+	if concHangs >= 2 {
+		// two runs already left goroutines spinning: further concurrent runs on this tree would
+		// only compete with them for the processors
+		core.Count("conc:skipped-after-hangs")
+		return core.Result{Impl: "conc skipped", SkipModel: true}
 	}
 	r := core.NewRand(seed)
 	progs := make([][]*cop, G)
@@ -452,25 +481,47 @@ func runConc(a []string) core.Result {
 					errs[g] = e
 					return
 				}
-				if (i+g)%3 == 0 {
+				if (i+g)%3 == 0 && mode != "hammer" {
 					runtime.Gosched()
 				}
 			}
 		}(g)
 	}
 	close(start)
-	wg.Wait()
+	// afterwards one goroutine looks at what is left: export, export-and-reset, export
+	tailProg := []*cop{{kind: "export", tag: 900000}, {kind: "xreset", tag: 900001}, {kind: "export", tag: 900002}}
+	tailErr := ""
+	finished := make(chan struct{})
+	go func() {
+		defer close(finished)
+		defer func() {
+			if x := recover(); x != nil {
+				tailErr = fmt.Sprintf("panic: %v", x)
+			}
+		}()
+		wg.Wait()
+		for _, o := range tailProg {
+			if e := execOp(l, o, &clk); e != "" {
+				tailErr = e
+				return
+			}
+		}
+	}()
+	select {
+	case <-finished:
+	case <-time.After(concBound):
+		// the calls are a few microseconds each (a gated step waits 250 ms at most): a run that is
+		// not over after concBound is stuck (a call spinning in a corrupted ring, or blocked behind it)
+		concHangs++
+		return core.Result{Impl: "conc fail", Fail: "the concurrent run did not finish within " + concBound.String() + ": some call never returned", Sig: "conc:hang", SkipModel: true}
+	}
 	for g, e := range errs {
 		if e != "" {
 			return core.Result{Impl: "conc fail", Fail: fmt.Sprintf("goroutine %d: %s", g, e), Sig: "conc:malformed", SkipModel: true}
 		}
 	}
-	// the main goroutine looks at what is left: export, export-and-reset, export
-	tailProg := []*cop{{kind: "export", tag: 900000}, {kind: "xreset", tag: 900001}, {kind: "export", tag: 900002}}
-	for _, o := range tailProg {
-		if e := execOp(l, o, &clk); e != "" {
-			return core.Result{Impl: "conc fail", Fail: e, Sig: "conc:malformed", SkipModel: true}
-		}
+	if tailErr != "" {
+		return core.Result{Impl: "conc fail", Fail: tailErr, Sig: "conc:malformed", SkipModel: true}
 	}
 	progs = append(progs, tailProg)
 
